@@ -665,6 +665,14 @@ func panicIndex(c *Ctx) {
 						}
 					}
 				}
+				// the right operand of || runs when the left one is false: len(s) <= 4 || s[3] != x
+				if be, ok := p.(*ast.BinaryExpr); ok && be.Op == token.LOR && be.Y == child {
+					for _, cd := range core.SplitCond(be.X, true) {
+						if v := atomBound(fi, recv, cd, 0); v > b {
+							b = v
+						}
+					}
+				}
 				if lit, ok := p.(*ast.FuncLit); ok && depth < 2 {
 					// the literal's call sites
 					if as, ok := pm[lit].(*ast.AssignStmt); ok && len(as.Lhs) == 1 {
